@@ -203,6 +203,10 @@ fn follow_route(
             return None;
         }
     };
+    if model.v.is_empty() {
+        vs.push(Violation::new("start_without_vertices", &ctor, "start", format!("{label}the start digraph shows no vertex at all")));
+        return None;
+    }
     if model.v != target.v {
         // a constructor with another vertex set than asked for: not this property's business to judge
         // (C11/C14/C15), but the route cannot continue
@@ -336,6 +340,10 @@ impl Lane for C20 {
             vs.push(Violation::new("malformed_listing", &ctor, "start", "start digraph shows a malformed listing".into()));
             return vs;
         };
+        if ma.v.is_empty() {
+            vs.push(Violation::new("start_without_vertices", &ctor, "start", "the start digraph shows no vertex at all".into()));
+            return vs;
+        }
         // steps of A that the model rejects (ids outside a fixed order) are dropped, not executed
         let steps_a: Vec<Step> = {
             let mut probe = ma.clone();
@@ -390,6 +398,43 @@ impl Lane for C20 {
                     vs.push(Violation::new("ordering_inconsistent", &format!("{rname}::cmp"), &format!("neighbour_{how}"), format!("cmp(A,C) = {x:?}, cmp(C,A) = {y:?}; {}", d2())));
                 }
             }
+        }
+        // clone_from into existing values (of the same and of other orders, with and without arcs) must
+        // make them equal to the source, observably and under ==/hash/cmp, whatever they held before
+        {
+            let n = target.v.len();
+            let mut dests: Vec<(String, DynG)> = vec![("history B's digraph".into(), gb.clone())];
+            if kind == ReprKind::Map || target.unweighted().is_contiguous() {
+                for (what, order) in [("an empty digraph of the same order", n), ("an empty digraph one vertex smaller", n.max(2) - 1),
+                                      ("an empty digraph one vertex larger", n + 1), ("an empty digraph of order 1", 1)] {
+                    let c = construct(kind, &Start::Empty { order }, &sc.confs[0]);
+                    if let Ok(g) = c.g {
+                        dests.push((what.into(), g));
+                    }
+                }
+                let mut dense = WDg::empty(n + 1);
+                for u in 0..=n {
+                    for w in 0..=n {
+                        if u != w && (u + 2 * w) % 3 != 0 {
+                            let _ = dense.a.insert((u, w), if kind.weighted() { 9 } else { 0 });
+                        }
+                    }
+                }
+                if let Ok(g) = crate::reps::guard(|| DynG::build(kind, &dense)) {
+                    dests.push(("a dense digraph one vertex larger".into(), g));
+                }
+            }
+            for (what, mut dst) in dests {
+                st.sequential_checks += 1;
+                dst.clone_from(&ga);
+                let same_obs = dst.observe() == ga.observe();
+                if dst != ga || !same_obs || dst.hash64() != ga.hash64() || dst.cmp(&ga) != Ordering::Equal {
+                    vs.push(Violation::new("clone_from_differs", &format!("{rname}::clone_from"), "",
+                        format!("clone_from into {what}: == {}, same observation {same_obs}, same hash {}; source shows V={:?} A={:?}", dst == ga, dst.hash64() == ga.hash64(), target.v, target.a)));
+                    return vs;
+                }
+            }
+            st.bump("probe/clone_from_checked");
         }
         // clone: equal at the fork, independent afterwards
         let mut copy = ga.clone();
